@@ -23,6 +23,7 @@ fi
 rsync -a --exclude .git "$REPO/" "$SCRATCH/repo/" || exit 2
 "$VERIF/bin/simgen" -simrt "$VERIF/simrt" "$SCRATCH/repo" > "$SCRATCH/simgen.log" 2>&1 || { cat "$SCRATCH/simgen.log"; echo "INCONCLUSIVE: simgen cannot transform this tree (unsupported construct or it does not compile)"; exit 2; }
 mkdir -p "$SCRATCH/repo/zverif" && cp "$VERIF"/harness/*.go "$SCRATCH/repo/zverif/" || exit 2
+cp "$VERIF/harness/cmd_entry/zverif_entry.go.in" "$SCRATCH/repo/cmd/zverif_entry.go" || exit 2
 (cd "$SCRATCH/repo" && go build -o "$SCRATCH/harness" ./zverif) > "$SCRATCH/build.log" 2>&1 || { cat "$SCRATCH/build.log"; echo "INCONCLUSIVE: the transformed tree or the harness does not build"; exit 2; }
 
 RACEBIN=""
@@ -46,6 +47,7 @@ if [ "$PROP" = "selftest" ]; then
   rsync -a --exclude .git "$REPO/" "$SCRATCH/real/" || exit 2
   printf '\nrequire verif/simrt v0.0.0\n\nreplace verif/simrt => %s\n' "$VERIF/simrt" >> "$SCRATCH/real/go.mod"
   mkdir -p "$SCRATCH/real/zverif" && cp "$VERIF"/harness/*.go "$SCRATCH/real/zverif/"
+  cp "$VERIF/harness/cmd_entry/zverif_entry.go.in" "$SCRATCH/real/cmd/zverif_entry.go"
   (cd "$SCRATCH/real" && go build -tags realtree -o "$SCRATCH/harness-real" ./zverif) > "$SCRATCH/build-real.log" 2>&1 || { cat "$SCRATCH/build-real.log"; echo "SELFTEST FAILED: realtree build"; exit 2; }
   "$SCRATCH/harness" selftest -realbin "$SCRATCH/harness-real" 2>/dev/null
   exit $?
